@@ -181,7 +181,8 @@ def _mixed(seed, n, big=False):
     import itertools
     srcs = [enc_gen.gen(seed, n, 'e', big=big), dec_gen.streams(seed + 1, n, 's', big=big), dec_gen.frames(seed + 2, n, 'c'),
             dec_gen.tecmp(seed + 3, n, 't'), st_gen.gen(seed + 4, n, 120, 'u'), obj_gen.builds(layout_table(), seed + 5, 'quick', 'b'),
-            dec_gen.streams(seed + 6, n, 'f', faults=True, big=False)]
+            dec_gen.streams(seed + 6, n, 'f', faults=True, big=False), val_gen.gen(seed + 7, n, 'v', 'packet'),
+            vld_gen.buffers(seed + 8, n, 'w'), dec_gen.encoder_streams(seed + 9, n, 'g', faults=True)]
     out = []
     for tup in itertools.zip_longest(*[itertools.islice(g, n) for g in srcs]):
         out += [e for e in tup if e is not None]
